@@ -571,8 +571,10 @@ class _Interpolator(object):
             object is a reference to it.
         """
         if self.input_type == 'meshgrid':
-            # Given a meshgrid, the evaluation will be on a ragged array.
-            x = np.asarray(x, dtype=object)
+            # Keep the mesh vectors separate. Converting the tuple with
+            # `np.asarray(x, dtype=object)` fails when all vectors have the
+            # same first dimension (one point along the first axis).
+            x = tuple(np.asarray(xi) for xi in x)
         else:
             x = np.asarray(x)
 
